@@ -41,7 +41,8 @@ CONFIG_REGS = [0x00, 0x01, 0x02, 0x03, 0x04, 0x05, 0x06, 0x0A, 0x0B, 0x0C, 0x0D,
 LIMITS = {
     0x05: (0, 125),          # RF_CH: 2.400 .. 2.525 GHz
     0x03: (0, 3),            # AW: '00' illegal per datasheet but documented by the library since 2.1.0 (2-byte addresses)
-    0x11: (0, 32), 0x12: (0, 32), 0x13: (0, 32), 0x14: (0, 32), 0x15: (0, 32), 0x16: (0, 32),  # RX_PW: 0 = pipe not used, 1..32
+    # RX_PW: the datasheet allows 0 (= pipe not used); the driver documents and maintains [1, 32]
+    0x11: (1, 32), 0x12: (1, 32), 0x13: (1, 32), 0x14: (1, 32), 0x15: (1, 32), 0x16: (1, 32),
 }
 
 # SPI commands
